@@ -166,8 +166,17 @@ func vxDrawMetadata(t *rapid.T, version int, maxCols int, prepared bool) *cqlspe
 	if m.GlobalSpec {
 		m.Keyspace, m.Table = vxDrawIdent(t, "gks"), vxDrawIdent(t, "gtable")
 	}
+	// one result in sixteen is wide: many columns with the shortest names there are (a, b, ..., aa, ab, ...) and
+	// plain types - column counts around the driver's own thresholds included
+	wide := rapid.IntRange(0, 15).Draw(t, "wide") == 0
+	if wide {
+		n = rapid.SampledFrom([]int{9, 12, 26, 40, 300, 999, 1000, 1001, 1100}).Draw(t, "wide_ncols")
+	}
 	for i := 0; i < n; i++ {
 		c := cqlspec.Column{Name: fmt.Sprintf("c%d_%s", i, vxDrawIdent(t, "cname")), Type: vxDrawColType(t, version)}
+		if wide {
+			c.Name, c.Type = vxShortName(i), cqlspec.Scalar(rapid.SampledFrom([]cqlspec.Kind{cqlspec.Int, cqlspec.Int, cqlspec.Varchar, cqlspec.Boolean}).Draw(t, "wide_type"))
+		}
 		if m.GlobalSpec {
 			c.Keyspace, c.Table = m.Keyspace, m.Table
 		} else {
@@ -185,6 +194,18 @@ func vxDrawMetadata(t *rapid.T, version int, maxCols int, prepared bool) *cqlspe
 		}
 	}
 	return m
+}
+
+// vxShortName: a, b, ..., z, aa, ab, ...
+func vxShortName(i int) string {
+	s := ""
+	for {
+		s = string(rune('a'+i%26)) + s
+		i = i/26 - 1
+		if i < 0 {
+			return s
+		}
+	}
 }
 
 func vxDrawResponse(t *rapid.T) *cqlspec.Response {
@@ -308,6 +329,9 @@ func vxDrawResponse(t *rapid.T) *cqlspec.Response {
 		nrows := rapid.IntRange(0, 6).Draw(t, "nrows")
 		if rapid.IntRange(0, 9).Draw(t, "manyrows") == 0 {
 			nrows = rapid.IntRange(7, 40).Draw(t, "nrows2")
+		}
+		if len(r.Meta.Columns) > 50 && nrows > 2 {
+			nrows = 2
 		}
 		for i := 0; i < nrows; i++ {
 			row := make([]cqlspec.Value, len(r.Meta.Columns))
